@@ -373,6 +373,27 @@ def obs_vec(sp, fn):
     return '(IVec %s)' % C.qs(v)
 
 
+def obs_prox_modes(sp, opfn, X):
+    """the three ways a proximal is called: op(x), op(x, out=fresh), op(x, out=x) (the in-place pattern of
+    admm / douglas_rachford / dca).  All three are compared with the same model value."""
+    try:
+        op = opfn()
+    except Exception as e:  # noqa
+        er = '(IVE %s)' % _err(e)
+        return er, er, er
+
+    def fresh():
+        out = op.range.element()
+        r = op(X, out=out)
+        return out if r is None else r
+
+    def aliased():
+        xc = X.copy()
+        r = op(xc, out=xc)
+        return xc if r is None else r
+    return obs_vec(sp, lambda: op(X)), obs_vec(sp, fresh), obs_vec(sp, aliased)
+
+
 def pyshape(f):
     """preorder class tags of an odl functional (must mirror C08/Corr.v:shape)."""
     import odl
@@ -446,8 +467,11 @@ def make_case(sp, node, x, y, sigma):
     val = obs_val(lambda: f(X))
     cval = obs_val(lambda: fc(Y)) if fc is not None else 'ISkip'
     ccval = obs_val(lambda: fcc(X)) if fcc is not None else 'ISkip'
-    prox = obs_vec(sp, lambda: f.proximal(sigma)(X))
-    cprox = obs_vec(sp, lambda: fc.proximal(1.0 / sigma)(X / sigma)) if fc is not None else 'IVSkip'
+    prox, prox_f, prox_a = obs_prox_modes(sp, lambda: f.proximal(sigma), X)
+    if fc is not None:
+        cprox, cprox_f, cprox_a = obs_prox_modes(sp, lambda: fc.proximal(1.0 / sigma), X / sigma)
+    else:
+        cprox = cprox_f = cprox_a = 'IVSkip'
     gcell = {}
 
     def _g():
@@ -461,10 +485,10 @@ def make_case(sp, node, x, y, sigma):
     else:
         cgval = 'ISkip'
     term = ('{| k_w := %s; k_e := %s; k_x := %s; k_y := %s; k_sigma := %s; k_shape := %s; k_val := %s; '
-            'k_cshape := %s; k_cval := %s; k_ccshape := %s; k_ccval := %s; k_prox := %s; k_cprox := %s; '
-            'k_grad := %s; k_cgval := %s |}'
+            'k_cshape := %s; k_cval := %s; k_ccshape := %s; k_ccval := %s; k_prox := %s; k_prox_f := %s; '
+            'k_prox_a := %s; k_cprox := %s; k_cprox_f := %s; k_cprox_a := %s; k_grad := %s; k_cgval := %s |}'
             % (C.qs(sp.w), node.coq, C.qs(x), C.qs(y), C.q(sigma), shp, val, cshp, cval, ccshp, ccval,
-               prox, cprox, grad, cgval))
+               prox, prox_f, prox_a, cprox, cprox_f, cprox_a, grad, cgval))
     desc = {'space': sp.ctor, 'f': node.py, 'x': x, 'y': y, 'sigma': sigma}
     return term, desc
 
@@ -608,10 +632,27 @@ def chk_moreau(f, x, s):
     try:
         fc = f.convex_conj
         if np.isscalar(s) or hasattr(s, 'space'):
-            # a positive scalar, or one step per entry given as a space element
-            p = f.proximal(s)(x)
-            q = fc.proximal(1.0 / s)(x / s)
-            res = p + s * q - x
+            # a positive scalar, or one step per entry given as a space element; every call mode
+            # (out-of-place, out=fresh element, out=the input itself) must give the identity
+            P, Q = f.proximal(s), fc.proximal(1.0 / s)
+            worst, res = -1.0, None
+            for mode in ('value', 'fresh', 'aliased'):
+                if mode == 'value':
+                    p, q = P(x), Q(x / s)
+                elif mode == 'fresh':
+                    p, q = P.range.element(), Q.range.element()
+                    P(x, out=p)
+                    Q(x / s, out=q)
+                else:
+                    p, q = x.copy(), x / s
+                    P(p, out=p)
+                    Q(q, out=q)
+                r_m = p + s * q - x
+                e_m = float(np.max(np.abs(_flatten(r_m)))) if x.space.size else 0.0
+                if e_m != e_m:
+                    e_m = np.inf
+                if e_m > worst:
+                    worst, res = e_m, r_m
         else:
             p = f.proximal(list(s))(x)
             xs = x.space.element([xi / si for xi, si in zip(x, s)])
